@@ -26,7 +26,7 @@ SBitEntry::SBitEntry(const char* field_code, const char* in_field,
     int bitnum, int numbits, int fragment_index) : Entry()
 {
   E.field = strdup(field_code);
-  E.field_type = GD_BIT_ENTRY;
+  E.field_type = GD_SBIT_ENTRY;
   E.in_fields[0] = strdup(in_field);
   E.u.bit.bitnum = bitnum;
   E.u.bit.numbits = numbits;
